@@ -23,6 +23,8 @@ pub enum Family {
   AbsorbingDense,
   RepeatDense,
   Wide,
+  Huge,
+  ModDense,
 }
 
 #[derive(Clone, Copy, Debug)]
@@ -318,9 +320,11 @@ pub fn gen_family(src: &mut Src, fam: Family, opts: &LayoutOpts) -> GenLayout {
     Family::AbsorbingDense => gen_absorbing_dense(src, opts),
     Family::RepeatDense => gen_repeat_dense(src, opts),
     Family::Wide => gen_wide(src, opts),
+    Family::Huge => gen_huge(src, opts),
+    Family::ModDense => gen_mod_dense(src, opts),
   };
   // key-code diversity: the small readable pools are relabelled onto the whole key space
-  if src.chance(35) {
+  if fam != Family::Huge && src.chance(35) {
     relabel(src, &mut g);
   }
   g
@@ -382,6 +386,83 @@ pub fn gen_wide(src: &mut Src, opts: &LayoutOpts) -> GenLayout {
   let mut o2 = *opts;
   o2.max_alphabet = o2.max_alphabet.max(20);
   finish(src, layout, "wide", &[], &o2, true)
+}
+
+// *modifier-dense*: 3-6 mappings on single keys (sometimes one trigger modifier) whose outputs
+// are drawn from two output modifiers S, T and distinguished keys: [S,tag], [T,tag], [S,T,tag],
+// [S], [T], [S,T], [tag]. Overlapping chords, modifier-remaps that re-press a chord's modifier,
+// shared outputs - the interplay C04, C05 and C19 are about - in a space small enough for the
+// sweep to cover every order.
+pub fn gen_mod_dense(src: &mut Src, opts: &LayoutOpts) -> GenLayout {
+  let out_mods = src.distinct(&[LEFTSHIFT, LEFTCTRL, LEFTALT, LEFTMETA], 2);
+  let (s_mod, t_mod) = (out_mods[0], out_mods[1]);
+  let keys = src.distinct(&[A, B, C, Q, W, CAPSLOCK, TAB], 5);
+  let n = src.range(3, 6);
+  let mut mappings = Vec::new();
+  let mut next_tag = 0usize;
+  let mut tag = |next_tag: &mut usize| {
+    let t = TAGS[*next_tag % TAGS.len()];
+    *next_tag += 1;
+    t
+  };
+  for i in 0..n {
+    let final_key = keys[src.below(keys.len())];
+    let mut from: Vec<KeyCode> = Vec::new();
+    if src.chance(20) {
+      let m = keys[src.below(keys.len())];
+      if m != final_key {
+        from.push(m);
+      }
+    }
+    from.push(final_key);
+    let to: Vec<KeyCode> = match src.weighted(&[22, 22, 8, 14, 14, 5, 15]) {
+      0 => vec![s_mod, tag(&mut next_tag)],
+      1 => vec![t_mod, tag(&mut next_tag)],
+      2 => vec![s_mod, t_mod, tag(&mut next_tag)],
+      3 => vec![s_mod],
+      4 => vec![t_mod],
+      5 => vec![s_mod, t_mod],
+      _ => vec![tag(&mut next_tag)],
+    };
+    let repeat = gen_repeat(src, &[s_mod, F1], &[80, 10, 10], i as i32);
+    mappings.push(Mapping { from, to, repeat, absorbing: vec![] });
+  }
+  let layout = Layout { mappings };
+  finish(src, layout, "modifier-dense", &[s_mod], opts, true)
+}
+
+// *huge*: hundreds of mappings (counts around 256 and 512), every one with its own trigger, its
+// own distinguished output and its own Special chord - tables indexed by small integers,
+// per-layout caches and the like only overflow here. No absorbing.
+pub fn gen_huge(src: &mut Src, _opts: &LayoutOpts) -> GenLayout {
+  let n = src.pick(&[255usize, 256, 257, 258, 300, 511, 512, 513, 600]);
+  let nm = nonmod_codes();
+  let finals: Vec<KeyCode> = nm.iter().cloned().filter(|k| code_of(*k) < 183).collect(); // ~150 keys
+  let tags: Vec<KeyCode> = nm.iter().cloned().filter(|k| code_of(*k) >= 183).collect(); // ~320 keys
+  let mut mappings = Vec::new();
+  for i in 0..n {
+    let f = finals[i % finals.len()];
+    let layer = i / finals.len();
+    let mut from: Vec<KeyCode> = Vec::new();
+    if layer > 0 {
+      from.push(STD_MODIFIERS[(layer - 1) % 8]);
+    }
+    from.push(f);
+    let to: Vec<KeyCode> = if i < tags.len() { vec![tags[i]] } else { vec![] };
+    let a = tags[(i * 3 + 1) % tags.len()];
+    let b = tags[(i * 5 + 2) % tags.len()];
+    let keys = if a != b { vec![STD_MODIFIERS[i % 8], a, b] } else { vec![STD_MODIFIERS[i % 8], a] };
+    let repeat = if src.chance(85) { Repeat::Special { keys, delay_ms: 100 + i as i32, interval_ms: 10 + (i % 50) as i32 } } else { Repeat::Normal };
+    mappings.push(Mapping { from, to, repeat, absorbing: vec![] });
+  }
+  let layout = Layout { mappings };
+  // physically pressable: a window of final keys and the modifiers in use
+  let start = src.below(finals.len());
+  let mut alphabet: Vec<KeyCode> = (0..10).map(|j| finals[(start + j * 13) % finals.len()]).collect();
+  for m in STD_MODIFIERS.iter().take(4) {
+    alphabet.push(*m);
+  }
+  GenLayout { layout, alphabet, family: "huge".to_string() }
 }
 
 // Injective relabelling of a generated layout onto the whole key space. Standard modifiers stay
